@@ -55,6 +55,8 @@ TRUSTED_BASE = [
     "Lean 4 kernel (4.33.0); thorough tier re-checks the .olean files with leanchecker",
     "axioms: subset of {propext, Classical.choice, Quot.sound}, audited per theorem by #print axioms on this run",
     "tools/extract.py: the translator that regenerates Generated/Tables.lean from the live code",
+    "tools/translate.py: the translator that regenerates Generated/Bodies.lean (handler bodies, decorators, release loop, "
+    "outgoing handlers, version setter, Node methods) from the Python AST; Lemmas/BodiesEq.lean proves them equal to the model's handlers",
     "harness/: differential correspondence between the hand-written model and the implementation (testing, not proof)",
     "modelled, not verified: CPython str/int/float/dict semantics, marshmallow 3.26, awesomeversion, asyncio, aiofiles, aiomqtt",
 ]
@@ -177,6 +179,22 @@ def body_changes() -> list[str]:
     return sorted(k for k in set(a) | set(b) if a.get(k) != b.get(k))
 
 
+# properties about the gateway's receive / send path: the generated handler bodies must equal the model's handlers
+TIE_PROPS = {"C03", "C04", "C05", "C06", "C07", "C08", "C10", "C11", "C12", "C19"}
+TIE_MOD = "AioMySensors.Lemmas.BodiesEq"
+
+
+def translate_bodies(force_snapshot: bool) -> str:
+    cmd = [PY, os.path.join(VERIF, "tools", "translate.py"), "--repo", lib.REPO,
+           "--out", os.path.join(LEAN, "AioMySensors", "Generated", "Bodies.lean"),
+           "--snapshot", os.path.join(VERIF, "tools", "bodies_snapshot.json"),
+           "--json", os.path.join(VERIF, "tools", "bodies_status.json")]
+    if force_snapshot:
+        cmd.append("--force-snapshot")
+    rc, out = sh(cmd)
+    return out.strip().split("\n")[-1] if out.strip() else f"exit {rc}"
+
+
 def run(prop: str, tier: str, replay: str | None) -> int:
     t0 = time.time()
     seed = int(os.environ.get("VERIF_SEED", "0"))
@@ -193,17 +211,34 @@ def run(prop: str, tier: str, replay: str | None) -> int:
                       "--json", os.path.join(VERIF, "tools", "tables.json")])
         report["extraction"] = out.strip().split("\n")[-1] if out.strip() else f"exit {rc}"
         extraction_ok = rc == 0 and "EXTRACT-OK" in out
+        # 1b. body translator (gateway-level properties): handler bodies -> Generated/Bodies.lean
+        tie = prop in TIE_PROPS
+        if tie:
+            report["translation"] = translate_bodies(force_snapshot=False)
         # 2. build: the models (driver) first, then the property's theorems
         rc_m, out_m = sh(["lake", "build", "AioMySensors.Model"], cwd=LEAN)
         model_ok = rc_m == 0
         rc_p, out_p = sh(["lake", "build", prop_mod], cwd=LEAN)
         proofs_ok = rc_p == 0
+        if tie:
+            rc_b, out_b = sh(["lake", "build", "AioMySensors.Generated.Bodies"], cwd=LEAN)
+            if rc_b != 0:
+                # the translation does not type-check: that is a limit of the translator, not a fact about the code;
+                # fall back to the committed translation and leave the tie to the correspondence run
+                report["translation"] = translate_bodies(force_snapshot=True) + " (fresh translation did not type-check: " \
+                    + " ".join(out_b.split())[-300:] + ")"
+            rc_t, out_t = sh(["lake", "build", TIE_MOD], cwd=LEAN)
+            if rc_t != 0:
+                proofs_ok = False
+                out_p += "\n" + out_t
     finally:
         fcntl.flock(lock, fcntl.LOCK_UN)
         lock.close()
 
     # obligations: theorems of the property file and of the project's lemma files it imports
     mods = [m for m in closure(prop_mod) if ".Properties." in m or ".Lemmas." in m]
+    if tie and TIE_MOD not in mods:
+        mods.append(TIE_MOD)
     theorems = {}
     for m in mods:
         for name, a, b in theorem_spans(module_path(m)):
@@ -328,6 +363,7 @@ def run(prop: str, tier: str, replay: str | None) -> int:
         "failed_theorems": sorted(f"{m.split('.')[-1]}.{n}" for m, n in failed),
         "axioms": axioms,
         "extraction": report["extraction"],
+        "body_translation": report.get("translation", "not used by this property"),
         "extraction_ok": extraction_ok,
         "model_builds": model_ok,
         "leanchecker": report.get("leanchecker", "not run (quick tier)"),
